@@ -155,6 +155,7 @@ class Contract:
         raises_props=None,
         bounded_cases=None,
         observer=False,
+        prefer=None,
     ):
         self.target = target
         # sig: one dict, or a list of dicts (alternative signature groups varying together)
@@ -193,6 +194,7 @@ class Contract:
         # observer: the function does not modify the model objects it is given; only then may its
         # contract be applied to a caller's state without an exact `call` hook
         self.observer = observer
+        self.prefer = prefer      # "cvc5": try cvc5 before z3 on this function's VCs (real/float arithmetic)
         self.result_alias = result_alias
         self.call_native = call_native
         self.gen = gen
@@ -208,6 +210,7 @@ class Contract:
         # observer: the function does not modify the model objects it is given; only then may its
         # contract be applied to a caller's state without an exact `call` hook
         self.observer = observer
+        self.prefer = prefer      # "cvc5": try cvc5 before z3 on this function's VCs (real/float arithmetic)
 
 
 LEMMAS: dict[str, "Lemma"] = {}
